@@ -307,7 +307,7 @@ func runC02(c *run.Ctx) {
 			default:
 				c.Outcome("all-attrs-kept")
 			}
-			if c.WantSample() && nt && strings.Contains(out, "=") {
+			if c.WantSample() && (nt || strings.Contains(out, "=")) && len(s) > 12 {
 				c.Sample(map[string]string{"policy": b.S.Name, "input": s, "output": out})
 			}
 		}
